@@ -26,23 +26,23 @@ from harness.common import zlit, zlist
 
 GEN_MODULES = ['random']
 MODEL_TARGETS = ['model/M_Random.vo']
-PROOF_TARGETS = ['proofs/P_Random.vo', 'proofs/P_RandomChoice.vo']
+PROOF_TARGETS = ['proofs/P_Random.vo', 'proofs/P_RandomChoice.vo', 'proofs/P_RandomOrder.vo']
 LEVEL = 'proof'
 RULE = ('RandomChoice: probability vectors of 1..1e5 items (float64/float32; leading/inner/trailing zeros, one-hot, '
         'heavy-tailed, dyadic) x prescribed uniforms (0.0, cdf entries and their neighbours, 1-2^-53, random) plus a '
         'malformed stream; seed search: every subset of {0..6} x every service seed 0..7 (+ large random seed columns); '
-        'workers: ncpu 1..4 x seeds incl. 0; trials: minimiser scripts with 0..max restarts x bkg/sig configurations; '
+        'workers: ncpu 1..4 x seeds incl. 0; completion order: ncpu 3..5 (also > number of tasks) x every single delayed worker, bytewise vs. a sequential oracle; trials: minimiser scripts with 0..max restarts x bkg/sig configurations; '
         'a case is non-trivial when distinct by content hash and (for choice) has >= 1 item and >= 1 draw')
 TRUSTED = [
     'Coq 8.16.1 kernel incl. vm_compute (no native_compute)',
-    'all 12 theorems closed under the global context (no axioms); C08_choice is closed over eight order/monotonicity '
+    'all 13 theorems closed under the global context (no axioms); C08_choice is closed over eight order/monotonicity '
     'premises on the carrier (proved for the rationals: C08_choice_Q); that finite IEEE doubles without overflow meet '
     'them (monotone rounding, x/x = 1, 0/x = 0) is a trusted reading, exercised bit-exactly by the correspondence',
     'the generator is an abstract deterministic machine (Section variables rng/seed_rng/draw): MT19937 itself is not modelled',
     'generate_background_events / generate_signal_events are arbitrary state-passing functions of the service they are '
     'handed (premise: all randomness flows through the passed RandomStateService - checked by the request traces, the '
     'equal-seed runs and a static scan for np.random.* globals)',
-    'translator/py2coq.py (63 kernels of G_random.v pinned by K_* lemmas)',
+    'translator/py2coq.py (65 kernels of G_random.v pinned by K_* lemmas)',
     'extraction (ExtrOcamlBasic only) + ocaml/c08/driver.ml + ocaml/common/numf.ml for the float run of RandomChoice',
     'np.searchsorted on a non-decreasing table = number of entries <= v (side=right); np.cumsum = sequential sum; '
     'np.sum in _assert_probabilities read left-to-right (decision kept away from atol)',
@@ -968,6 +968,104 @@ def run_determinism(ctx):
                           case=c, predicate='bytes(run after prior use) == bytes(fresh run)')
 
 
+
+# ===================================================================== completion order of the workers
+
+def _order_task(rss, tag):
+    """stand-in for Analysis.do_trial: "pseudo data" from the handed service"""
+    return (tag, rss.seed, int(rss.random.randint(0, 1000003)), float(rss.random.random()))
+
+
+def _sequential_oracle(seed, ntasks, ncpu):
+    """what parallelize must return, computed without processes: chunks of np.array_split in pid order, master =
+    parent stream after the ncpu-1 seed draws, worker k = RandomState(k-th randint(0, 2**32) of the parent)"""
+    parent = np.random.RandomState(seed)
+    if ncpu == 1:
+        streams, seeds = [parent], [seed]
+    else:
+        wseeds = [int(parent.randint(0, 2 ** 32)) for _ in range(ncpu - 1)]
+        streams = [parent] + [np.random.RandomState(s) for s in wseeds]
+        seeds = [seed] + wseeds
+    out = []
+    for pid, chunk in enumerate(np.array_split(np.arange(ntasks), ncpu)):
+        for tag in chunk:
+            out.append((int(tag), seeds[pid], int(streams[pid].randint(0, 1000003)), float(streams[pid].random())))
+    return out
+
+
+def _with_plan(plan, f):
+    import json as _json
+    old = os.environ.get('ICECUBE_SKYLLH_VERIF_PLAN')
+    os.environ['ICECUBE_SKYLLH_VERIF_PLAN'] = _json.dumps(plan)
+    try:
+        return f()
+    finally:
+        if old is None:
+            os.environ.pop('ICECUBE_SKYLLH_VERIF_PLAN', None)
+        else:
+            os.environ['ICECUBE_SKYLLH_VERIF_PLAN'] = old
+
+
+def run_completion_order(ctx, only=None):
+    """same seed, same ncpu => same bytes for ANY completion order of the worker processes (ncpu 3, 4, also more
+    processes than tasks): one worker at a time is delayed through the guarded hook in worker_wrapper, so that
+    higher pids deliver their result records before lower ones"""
+    from skyllh.core.multiproc import parallelize
+    from skyllh.core.random import RandomStateService
+    rng = ctx.rng
+    delay = 0.25
+    combos = only or ([(rng.choice([0, 1, 7, 42]), 3, 6), (rng.choice([0, 5, 2 ** 32 - 1]), 4, 9), (3, 4, 2), (1, 3, 3)]
+                      + ([(rng.randint(0, 10 ** 6), n, t) for n in (3, 4, 5) for t in (1, 5, 12)] if ctx.thorough() else []))
+    for seed, ncpu, ntasks in combos:
+        case = {'kind': 'order', 'seed': seed, 'ncpu': ncpu, 'ntasks': ntasks}
+        ctx.case(case)
+        ctx.count(f'order:ncpu:{ncpu}' + (':more-procs-than-tasks' if ncpu > ntasks else ''))
+        want = _sequential_oracle(seed, ntasks, ncpu)
+        sizes = [len(c) for c in np.array_split(np.arange(ntasks), ncpu)]
+        plans = [('no-delay', [])]
+        for slow in range(1, ncpu - 1):          # delaying the last worker cannot reverse an order
+            if sizes[slow] > 0:
+                plans.append((f'worker-{slow}-slow', [{'pid': slow, 'task': 0, 'action': f'sleep:{delay}'}]))
+        results = {}
+        for name, plan in plans:
+            try:
+                res = _with_plan(plan, lambda: parallelize(_order_task, [((), {'tag': i}) for i in range(ntasks)], ncpu,
+                                                           rss=RandomStateService(seed=seed)))
+                results[name] = [(int(a), int(b), int(c), float(d)) for a, b, c, d in res]
+            except Exception as ex:
+                results[name] = 'raised:' + exc_name(ex)
+        for name, res in results.items():
+            c2 = dict(case, plan=name)
+            if isinstance(res, str):
+                ctx.violation('parallelize', res.replace('raised:', 'raises-'), 'raised under a pure delay', case=c2, impl=res)
+            elif res != want:
+                kind = 'completion-order-dependent' if sorted(res) == sorted(want) else 'differs-from-sequential'
+                ctx.violation('parallelize', kind, f'result with {name} differs from the sequential oracle '
+                              '(same seed, same ncpu must give the same list for every completion order)',
+                              case=c2, impl=res[:12], model=want[:12], predicate='parallelize(...) == sequential oracle')
+    # the same through Analysis.do_trials (real do_trial per task), ncpu = 3
+    n_ana = 1 if not ctx.thorough() else 4
+    for i in range(n_ana if only is None else 0):
+        c = gen_trial_cfg(rng, 6, converging=True)
+        c['explicit_minimizer_rss'] = False
+        ctx.case({'order-trials': c})
+        ctx.count('order:do_trials:ncpu:3')
+
+        def one(plan):
+            ana = build_analysis(c)
+            kw = dict(mean_n_sig=c['mean_n_sig'], bkg_kwargs={'poisson': c['bkg_poisson']},
+                      sig_kwargs={'poisson': c['sig_poisson']})
+            try:
+                return _with_plan(plan, lambda: ana.do_trials(rss=RandomStateService(seed=c['seed']), n=6, ncpu=3, **kw).tobytes())
+            except Exception as ex:
+                return 'raised:' + exc_name(ex)
+        a = one([])
+        b = one([{'pid': 1, 'task': 0, 'action': f'sleep:{delay}'}])
+        if a != b:
+            ctx.violation('Analysis.do_trials', 'completion-order-dependent', 'equal seed and ncpu=3: the record array depends on '
+                          'which worker finishes first', case=dict(c, kind='order-trials'), predicate='bytes equal for every completion order')
+
+
 def static_scan(ctx):
     """no module of skyllh may use numpy's global generator or the `random` module"""
     bad = []
@@ -1035,6 +1133,7 @@ def run(ctx):
     ctx.sample({'choice': {k: (v if k not in ('p', 'u') else [float.fromhex(x) for x in v][:8]) for k, v in cases[0].items()}})
     run_seed(ctx)
     run_workers(ctx)
+    run_completion_order(ctx)
     run_trials(ctx)
     run_determinism(ctx)
     if not ctx.model_ok:
@@ -1065,6 +1164,10 @@ def replay(ctx, rp):
         run_trials(ctx, only=[c])
     elif kind == 'workers':
         run_workers(ctx)
+    elif kind == 'order':
+        run_completion_order(ctx, only=[(c['seed'], c['ncpu'], c['ntasks'])])
+    elif kind == 'order-trials':
+        run_completion_order(ctx)
     elif kind == 'static':
         static_scan(ctx)
     else:
